@@ -105,7 +105,11 @@ def gen_script(rng, cfg, pnames=("P1",)):
         stop = {"kind": "skips_lt", "S": rng.randint(1, 3)}            # give up after S skipped repetitions
     else:
         stop = {"kind": "time_lt", "T": dur_default * rng.randint(1, rm + 2) + 0.5}   # a (virtual) time budget per variation
-    return {"skips": skips, "dur_default": dur_default, "durs": durs, "stop": stop}
+    out = {"skips": skips, "dur_default": dur_default, "durs": durs, "stop": stop}
+    hist = rng.choice([None, None, None, "fresh", "reused", "reused"])     # an array-valued sum result, possibly from a reused buffer
+    if hist:
+        out["hist"] = hist
+    return out
 
 
 def gen_clock_faults(rng):
@@ -479,6 +483,14 @@ def shrink(plan):
         c = P()
         c["script"]["dur_default"] = 0.0
         yield c
+    if plan["script"].get("hist"):
+        c = P()
+        del c["script"]["hist"]
+        yield c
+        if plan["script"]["hist"] == "reused":
+            c = P()
+            c["script"]["hist"] = "fresh"
+            yield c
     if plan["script"].get("stop", {}).get("kind", "always") != "always":
         c = P()
         c["script"]["stop"] = {"kind": "always"}
